@@ -4,6 +4,7 @@ import (
 	"fmt"
 	"regexp"
 	"strings"
+	"unicode/utf8"
 
 	"github.com/alecthomas/participle/v2/lexer"
 	"pgregory.net/rapid"
@@ -255,7 +256,7 @@ func GenRuleSet(t *rapid.T, o RuleOpts) *Generated {
 
 func startsWithDigit(s string) bool { return s != "" && s[0] >= '0' && s[0] <= '9' }
 
-var noise = []string{"a", "b", "c", "ab", "é", "日", ".", "+", "(", ")", " ", "\n", "\r\n", "0", "1", "-", `"`, "x", "\xff", "A", "K", "k", "\u212a", "\u017f", "ß", "\t", "*/", "}", "\\"}
+var noise = []string{"a", "b", "c", "ab", "é", "日", ".", "+", "(", ")", " ", "\n", "\r\n", "0", "1", "-", `"`, "x", "\xff", "A", "K", "k", "\u212a", "\u017f", "ß", "\t", "*/", "}", "\\", "\ufeff"}
 
 type flatRule struct {
 	spec RuleSpec
@@ -340,8 +341,30 @@ func (g *Generated) GenInput(t *rapid.T) string {
 		}
 	}
 	s := sb.String()
-	if len(s) > 0 && rapid.IntRange(0, 7).Draw(t, "trunc") == 0 {
-		s = s[:rapid.IntRange(0, len(s)-1).Draw(t, "truncat")]
+	if rapid.IntRange(0, 15).Draw(t, "bom") == 0 {
+		s = "\ufeff" + s // a byte-order mark is ordinary input for a user-defined lexer
+	}
+	if len(s) > 0 {
+		switch rapid.IntRange(0, 9).Draw(t, "trunc") {
+		case 0:
+			s = s[:rapid.IntRange(0, len(s)-1).Draw(t, "truncat")]
+		case 2:
+			// the input ends right after a character whose case-folded partners are shorter in UTF-8
+			if i := strings.LastIndexAny(s, "\u212a\u017f"); i >= 0 {
+				_, n := utf8.DecodeRuneInString(s[i:])
+				s = s[:i+n]
+			}
+		case 1:
+			// the input ends inside the last piece, on a character boundary: the end of input is met in the
+			// middle of a pattern
+			if len(pieces) > 0 {
+				if last := pieces[len(pieces)-1]; strings.HasSuffix(s, last) {
+					if rs := []rune(last); len(rs) > 1 {
+						s = s[:len(s)-len(last)] + string(rs[:rapid.IntRange(1, len(rs)-1).Draw(t, "truncrunes")])
+					}
+				}
+			}
+		}
 	}
 	return s
 }
